@@ -251,7 +251,7 @@ func runC04(c *mon.Ctx) {
 	})
 	c.MarkExhaustive("all ordered triples of 16 message kinds x legal elision subsets x one real-time byte at every position x every single split point (drivers.Reader level)")
 
-	c.Each("random", c.N(20_000, 300_000), func(i int64, r *mon.Rand) {
+	c.Each("random", c.N(20_000, 3_000_000), func(i int64, r *mon.Rand) {
 		cfg := liveCfg{sysex: true, clock: true, sense: true, buf: uint32(r.Pick(4, 16, 0))}
 		msgs := gen.LiveSequence(r, r.Range(1, 40), cfg.bufSize(), true)
 		w := gen.Serialize(r, msgs, gen.SerOpts{RunningStatus: true, Realtime: r.P(2, 3)})
